@@ -151,8 +151,8 @@ theorem filter_flatten_names : ∀ (kidss : List (List Tree)) (names : List Stri
         simp
 
 /-- the content of a printed struct element, routed by field name -/
-theorem fieldKids_content (nm name : String) (d : Nat) (K : List Tree) :
-    fieldKids nm (contentOf d (.node name [] K)) = entries (d + 1) (K.filter fun t => nameOfTree t == nm) := by
+theorem fieldKids_content (nm name : String) (as : List (String × List Char)) (d : Nat) (K : List Tree) :
+    fieldKids nm (contentOf d (.node name as K)) = entries (d + 1) (K.filter fun t => nameOfTree t == nm) := by
   cases K with
   | nil => simp [contentOf, fieldKids, entries]
   | cons k ks =>
